@@ -350,12 +350,11 @@ VARIANTS = [
      "new": "            msg.blocks[block_type] = []\n            for block in blocks:"},
     # ---- round 3 mechanisms
     {"name": "R4 TupleCoord.__lt__ raises ValueError on a length mismatch", "file": DTYPES, "expect": "C18.R4",
-     "old": "    def __lt__(self, other):\n        return all(x < y for x, y in zip(self, other))",
-     "new": "    def __lt__(self, other):\n        if len(tuple(other)) != len(tuple(self)):\n"
-            "            raise ValueError('length mismatch')\n        return all(x < y for x, y in zip(self, other))"},
+     "old": "            raise TypeError(f\"Can't order {self!r} against {other!r}\")",
+     "new": "            raise ValueError(f\"Can't order {self!r} against {other!r}\")"},
     {"name": "P R4 strict zip in TupleCoord with ValueError added to the filter's handler", "expect": "silent", "edits": [
-        {"file": DTYPES, "old": "        return all(x >= y for x, y in zip(self, other))",
-         "new": "        return all(x >= y for x, y in zip(self, other, strict=True))"},
+        {"file": DTYPES, "old": "            raise TypeError(f\"Can't order {self!r} against {other!r}\")",
+         "new": "            raise ValueError(f\"Can't order {self!r} against {other!r}\")"},
         {"file": LOGR, "old": "        except (TypeError, AttributeError):\n            # The comparison",
          "new": "        except (TypeError, AttributeError, ValueError):\n            # The comparison"}]},
     {"name": "R2 flat expression chain folded with the operator at a fixed position", "expect": "C18.R2", "edits": [
